@@ -304,6 +304,63 @@ def r17d(ctx, repo: Repo, classes: List[ClassInfo]):
     ctx.floor('R17d', 'observation entry points', n, 60)
 
 
+PROTOCOL = ('load_state_dict', '_load_from_state_dict', 'state_dict', '_save_to_state_dict',
+            '__setstate__', '__getstate__', 'set_extra_state', 'get_extra_state')
+HOOKS = ('register_load_state_dict_post_hook', '_register_load_state_dict_pre_hook',
+         'register_load_state_dict_pre_hook', 'register_state_dict_pre_hook',
+         '_register_state_dict_hook', 'register_state_dict_post_hook')
+
+
+def r17e(ctx, repo: Repo, classes: List[ClassInfo]) -> int:
+    """Saving and loading are exact: an override of the checkpoint protocol (load_state_dict,
+    state_dict, their per-module workers, pickling, extra state) or a hook registered on it
+    neither runs a forward pass -- in training mode, the default when a search is resumed, a
+    forward pass updates every BatchNorm's running statistics with the example input and
+    re-samples the selection coefficients, also under no_grad -- nor switches the mode nor
+    writes a tensor in place.  Returns the number of protocol entry points judged."""
+    E = Effects(repo)
+    n = 0
+    entries = []
+    for ci in classes:
+        for name in PROTOCOL:
+            fn = ci.methods.get(name)
+            if fn is not None:
+                entries.append((f'{ci.name}.{name}', fn))
+        for fn in ci.methods.values():
+            for p in paths(repo, fn):
+                for e in p.calls():
+                    mc = method_call(e.data[0])
+                    if mc is None or mc[1] not in HOOKS or not mc[2]:
+                        continue
+                    h = mc[2][0]
+                    tgt = None
+                    if h[0] == 'attr' and h[1] == SELF:
+                        tgt = repo.find_method(ci, h[2])
+                    elif h[0] == 'global' and h[1] in repo.functions:
+                        tgt = repo.functions[h[1]]
+                    if tgt is None:
+                        raise AnalysisError(f'R17e: {ci.name}.{fn.name} registers the checkpoint '
+                                            f'hook {show(h)[:60]}, which is not a method or a '
+                                            f'module-level function')
+                    entries.append((f'{ci.name}.{fn.name} hook {tgt.name}', tgt))
+    seen = set()
+    for label, fn in entries:
+        if (label, fn.qualname) in seen:
+            continue
+        seen.add((label, fn.qualname))
+        n += 1
+        bad = [e for e in E.closure(fn) if e.kind in ('forward', 'mode', 'inplace') and
+               e.owners & {'self', 'g:self', 'unknown', 'global'}]
+        ctx.ob('R17e', f'{label} restores / reports the state only', not bad,
+               'no forward pass, mode switch or in-place tensor write' if not bad else
+               '; '.join(f'{e.kind} {e.name} at {e.where()}' for e in bad[:3]) +
+               ': loading a checkpoint into a wrapper in training mode (the default when a search '
+               'is resumed) then rewrites state that the checkpoint has just restored (BatchNorm '
+               'running statistics, sampled coefficients, observed ranges), so the resumed model '
+               'differs from the saved one', f'{fn.module.relpath}:{fn.node.lineno}')
+    return n
+
+
 def run(ctx):
     # the sampler flags live outside the state_dict (known findings below); a wrapper rebuilt
     # with the same constructor arguments matches the checkpointed one only as long as nothing
@@ -317,6 +374,9 @@ def run(ctx):
     ctx.floor('R17a', 'mutable observed plain attributes', n, 5)
     r17b(ctx, repo, classes)
     r17d(ctx, repo, classes)
+    ne = r17e(ctx, repo, classes + [c for c in repo.classes.values() if c not in classes and
+                                    any('torch.nn' in str(b) for b in repo.mro(c))])
+    ctx.count('R17e checkpoint-protocol overrides and hooks in plinio', ne)
     # positive control for the zero-count rule R17b
     fx_root = Path(__file__).resolve().parent.parent.parent / 'selftest' / 'fixtures' / 'c17'
     if not (fx_root / 'plinio').is_dir():
@@ -337,6 +397,13 @@ def run(ctx):
     ctx.ob('R17b', 'positive control: fixture with register_buffer in forward is flagged',
            len(fired) >= 1, f'{len(fired)} fixture site(s) flagged' if fired else
            'the detector no longer recognises a buffer registration inside forward',
+           'selftest/fixtures/c17', nontrivial=False)
+    null2 = _Null()
+    r17e(null2, fx, fx_classes)
+    fired2 = [o for o in null2.obs if not o[2]]
+    ctx.ob('R17e', 'positive control: fixture whose load_state_dict runs a forward pass is flagged',
+           len(fired2) >= 1, f'{len(fired2)} fixture override(s) flagged' if fired2 else
+           'the detector no longer recognises a forward pass inside a load_state_dict override',
            'selftest/fixtures/c17', nontrivial=False)
     ctx.assume('load_state_dict restores exactly parameters and registered buffers; a freshly '
                'constructed wrapper re-creates constructor-only attributes from its arguments')
